@@ -99,7 +99,7 @@ func TestStatsEqualRecount(t *testing.T) {
 		if err != nil {
 			t.Fatalf("NewInterceptor: %v", err)
 		}
-		defer func() { _ = ic.Close() }()
+		defer kit.BoundedClose(ic.Close)
 		base := kit.StableGoroutines()
 		rtcpOut := ic.BindRTCPWriter(&kit.RTCPSink{})
 		rtcpSrc := &kit.ByteSource{}
